@@ -933,7 +933,9 @@ def _func_out_type(func):
                 ''.format(func.__name__, func.nout)
             )
         has_out = out_optional = (func.nout == 1)
-    elif inspect.isfunction(func):
+    elif inspect.isfunction(func) or inspect.ismethod(func):
+        # Bound methods can be inspected like functions (``self`` is just
+        # another positional argument of the underlying function)
         has_out, out_optional = _check_func_out_arg(func)
     elif callable(func):
         has_out, out_optional = _check_func_out_arg(func.__call__)
